@@ -213,7 +213,17 @@ def options_strategy(draw, rich: bool = True):
 
 
 NODE_OPS = ('replace',) * 10 + ('remove',) * 4 + ('cut',) * 2 + ('put',) * 3 + ('setitem',) * 2 + ('delitem',) + \
-    ('setattr',) + ('delattr',) + ('cut_paste',) * 2 + ('put_line_comment',) + ('put_docstr',)
+    ('setattr',) + ('delattr',) + ('cut_paste',) * 2 + ('put_line_comment',) + ('put_docstr',) + ('put_prim',) * 2
+
+# primitive fields by node class: (field, values); None = delete where the field is optional
+PRIM_FIELDS = {
+    'Constant': (('value', (7, 2.5, 1j, 'str', b'b', True, None, 0, 'q"\'q', 10 ** 20)),),
+    'Name': (('id', ('nm_x', 'ñm')),), 'Attribute': (('attr', ('at_x', 'ät')),), 'arg': (('arg', ('ar_x',)),), 'keyword': (('arg', ('kw_x',)),),
+    'alias': (('name', ('al_x', 'al.y')), ('asname', ('as_x', None))), 'FunctionDef': (('name', ('fn_x',)),), 'AsyncFunctionDef': (('name', ('fn_x',)),),
+    'ClassDef': (('name', ('Cl_x',)),), 'ExceptHandler': (('name', ('ex_x', None)),), 'MatchAs': (('name', ('ma_x',)),), 'MatchStar': (('name', ('ms_x', None)),),
+    'ImportFrom': (('module', ('mo.du', 'md')), ('level', (0, 1, 2))), 'TypeVar': (('name', ('Tv_x',)),), 'MatchMapping': (('rest', ('re_x', None)),),
+    'MatchSingleton': (('value', (True, False, None)),),
+}
 PAR_OPS = ('par', 'par_force', 'unpar', 'unpar_node')
 SLICE_OPS = ('put_slice',) * 5 + ('insert',) * 2 + ('append', 'extend', 'prepend', 'prextend', 'setslice', 'setslice', 'delslice',
                                                      'put_slice_one', 'get_slice_cut', 'view_replace', 'view_remove', 'setfield')
@@ -330,6 +340,15 @@ def single_edit_grid(programs, tier, shard, nshards, seed, n_expr=6, thin=1, rem
                             if k % nshards == shard and not (thin > 1 and (k * 2654435761 + seed * 40503) % thin):
                                 yield {'src': src, 'grid': True,
                                        'steps': [{'tsel': ti, 'form': 'src', 'dsel': 0, 'opts': {}, 'op': 'put_line_comment', 'anycat': False, 'layout': [], 'text': text, 'lc_field': lcf}]}
+
+            for pi_, (pf_, vals_) in enumerate(PRIM_FIELDS.get(node.__class__.__name__, ())):
+                for vi_ in range(len(vals_)):
+                    for how in (0, 1):
+                        k += 1
+
+                        if k % nshards == shard and not (thin > 1 and (k * 2654435761 + seed * 40503) % thin):
+                            yield {'src': src, 'grid': True,
+                                   'steps': [{'tsel': ti, 'form': 'src', 'dsel': 0, 'opts': {}, 'op': 'put_prim', 'anycat': False, 'layout': [], 'prim': [pi_, vi_, how]}]}
 
             for op, j, form, pars in variants:
                 k += 1
@@ -655,6 +674,22 @@ def apply_step(root: FST, step: dict, base_opts: dict) -> Applied:
 
                 piece = f.copy(**opts)
                 node2.f.replace(piece, **opts)
+            elif op == 'put_prim':
+                spec = PRIM_FIELDS.get(node.__class__.__name__)
+
+                if not spec:
+                    raise StepSkipped('no_primitive_field')
+
+                pi_, vi_, how_ = step['prim'] if 'prim' in step else (step['dsel'], step['dsel'] // 3, step['dsel'] % 2)
+                pfield_, values = pick(spec, pi_)
+                value = pick(values, vi_)
+                ap.code_src = f'{pfield_}={value!r}'
+
+                if how_:
+                    f.put(value, field=pfield_, **opts)
+                else:
+                    with FST.options(**opts):
+                        setattr(f, pfield_, value)
             elif op in PAR_OPS:  # parenthesization edits (not part of NODE_OPS: they do no parsability validation by design, used by C02 only)
                 if op == 'par':
                     f.par()
